@@ -1320,10 +1320,9 @@ class VM:
 
         def reduce_fn(*args):
             callback = require_callable(args[0] if args else UNDEFINED, "reduce callback")
-            initial = args[1] if len(args) > 1 else UNDEFINED
-            acc = initial
+            acc = args[1] if len(args) > 1 else UNDEFINED
             start_idx = 0
-            if acc is UNDEFINED:
+            if len(args) < 2:  # no initialValue (an explicit undefined is one)
                 if not arr._elements:
                     raise JSTypeError("Reduce of empty array with no initial value")
                 acc = arr._elements[0]
@@ -1337,11 +1336,10 @@ class VM:
 
         def reduceRight_fn(*args):
             callback = require_callable(args[0] if args else UNDEFINED, "reduceRight callback")
-            initial = args[1] if len(args) > 1 else UNDEFINED
-            acc = initial
+            acc = args[1] if len(args) > 1 else UNDEFINED
             length = len(arr._elements)
             start_idx = length - 1
-            if acc is UNDEFINED:
+            if len(args) < 2:  # no initialValue (an explicit undefined is one)
                 if not arr._elements:
                     raise JSTypeError("Reduce of empty array with no initial value")
                 acc = arr._elements[length - 1]
